@@ -48,6 +48,7 @@ type SFlow struct {
 	addr    string
 	workers int
 	stop    bool
+	done    chan struct{}
 	stats   SFlowStats
 	conn    *net.UDPConn
 	pool    chan chan struct{}
@@ -84,6 +85,7 @@ func NewSFlow() *SFlow {
 		port:    opts.SFlowPort,
 		addr:    opts.SFlowAddr,
 		workers: opts.SFlowWorkers,
+		done:    make(chan struct{}),
 	}
 }
 
@@ -155,6 +157,9 @@ func (s *SFlow) run() {
 		atomic.AddUint64(&s.stats.UDPCount, 1)
 		sFlowUDPCh <- SFUDPMsg{raddr, b[:n]}
 	}
+
+	// no datagram is handed over any more
+	close(s.done)
 }
 
 func (s *SFlow) shutdown() {
@@ -167,6 +172,8 @@ func (s *SFlow) shutdown() {
 	s.stop = true
 	logger.Println("stopping sflow service gracefully ...")
 	time.Sleep(1 * time.Second)
+	// the receive loop may still be handing over a datagram: the queue is closed only after it has ended
+	<-s.done
 	s.conn.Close()
 	logger.Println("sFlow has been shutdown")
 	close(sFlowUDPCh)
